@@ -6,6 +6,11 @@ VERIF = os.path.dirname(os.path.dirname(os.path.abspath(__file__)))
 ALL = ["C%02d" % i for i in range(1, 21)]
 
 CLAIMED = {
+ "C19": dict(
+   technique="TLA+ specs KeyEnc.tla (map-key functions) and AbiLayout.tla (C / Go layout rules evaluated by TLC over AbiDecls.tla, a constants module generated on every run from the compiled object's BTF, Go reflection in both build flavours, go/ast for the PARAM literal and the preprocessor's macro dump); keys compared with the Go constructors' bytes and with the keys the real kernel program uses; model layouts validated against both compilers",
+   text="TLC enumerates boundary flows / outbound ids / addresses and emits the expected key bytes; the harness compares bpfTuplesKeyFromAddrPorts, outboundConnectivityMapKey and the domain-table key byte for byte, reads back the key the kernel stored for the same frame, and finds the connectivity slot the kernel reads by flipping slots and watching the verdict of the real tc program. For layouts TLC evaluates for every (C struct, Go counterpart, flavour) pair - 12 structs x real and stub builds plus the PARAM literal - that size, coverage and wide-field offsets agree and that 31 shared enum values / limits are equal; the layouts TLC computed are checked against BTF and reflect offsets first, so a rule error is an infrastructure failure and only a compiler-confirmed C/Go difference is a violation.",
+   note="Byte order of individual fields is covered through the key and C02 conformance (ports, marks) rather than by declaration analysis. Trusted: TLC, BTF emitted by clang, Go reflect.",
+   design="§3 C19"),
  "C17": dict(
    technique="Three TLA+ specs enumerated by TLC: ConfGrammar.tla (generative grammar: one constructor per production, near-miss mutations, expected AST), Include.tla (include graphs over a directory tree, expected depth-first merge order / error / read set), ConfBuild.tla (typed-layer rules over perturbations x key classes); every state rendered to text / files and run through config_parser.Parse, config.Merger (opens observed with inotify), config.New and the routing builders (real kernel maps for the size limit)",
    text="TLC enumerates every item the grammar can produce (all productions, quoting styles) and simulated multi-section configurations with token-level near-misses; the parse tree must equal the generated AST one-to-one and malformed text must yield an error or a tree without crashing or hanging (this found and fixed parser crashes). All 5460 include graphs over a 7-file tree (globs, .., absolute paths, cycles, outside paths, non-.dae files) are materialised and merged: order, rejection and the set of opened files are compared. Typed-layer rules (required/unknown sections and keys, defaults for every key of section global discovered by reflection, wrong types, programs of Limit-1..2*Limit match sets) are checked against config.New and the builders.",
